@@ -157,6 +157,40 @@ fn exec<P: Px>(c: &RCase, stats: &mut Stats, viols: &mut Vec<Viol>) {
                 Viol::new("alpha_channel_differs_from_plain_resampling", format!("{}: pixel {}: alpha-on {:?} alpha-off {:?}", ext.name(), i, a[i], off[i])).sig(sig("iv", ext)),
             );
         }
+        // (vii) the alpha channel is resampled like an image of its own: the alpha plane alone, as a one-channel image of the
+        //       same component type, through the same geometry/filter/back-end (the coefficients depend on the geometry only and the
+        //       fixed-point arithmetic on the component type only, so integers are bit-identical; floats re-associate an f64 sum)
+        {
+            let plane_f64: Vec<f64> = {
+                let sc = P::components(&src);
+                (0..src.len()).map(|i| sc[i * nc + nc - 1].to_f64()).collect()
+            };
+            let got: Option<Vec<f64>> = match P::kind() {
+                CompKind::U8 => {
+                    let plane: Vec<fr::pixels::U8> = plane_f64.iter().map(|&v| fr::pixels::U8::new(v as u8)).collect();
+                    resize_vec::<fr::pixels::U8>(&plane, c.sw, c.sh, c.dw, c.dh, &opts_off, ext).ok().map(|v| v.iter().map(|p| p.0 as f64).collect())
+                }
+                CompKind::U16 => {
+                    let plane: Vec<fr::pixels::U16> = plane_f64.iter().map(|&v| fr::pixels::U16::new(v as u16)).collect();
+                    resize_vec::<fr::pixels::U16>(&plane, c.sw, c.sh, c.dw, c.dh, &opts_off, ext).ok().map(|v| v.iter().map(|p| p.0 as f64).collect())
+                }
+                CompKind::F32 => {
+                    let plane: Vec<fr::pixels::F32> = plane_f64.iter().map(|&v| fr::pixels::F32::new(v as f32)).collect();
+                    resize_vec::<fr::pixels::F32>(&plane, c.sw, c.sh, c.dw, c.dh, &opts_off, ext).ok().map(|v| v.iter().map(|p| p.0 as f64).collect())
+                }
+                _ => None,
+            };
+            if let Some(got) = got {
+                stats.count("alpha_plane_checks", 1);
+                let amax = plane_f64.iter().fold(0.0f64, |m, v| m.max(v.abs()));
+                let tol = if P::kind() == CompKind::F32 { 8.0 * ulp32_up(4.0 * amax) } else { 0.0 };
+                if let Some(i) = (0..n).find(|&i| !((ac[i * nc + nc - 1].to_f64() - got[i]).abs() <= tol)) {
+                    viols.push(
+                        Viol::new("alpha_channel_differs_from_plain_resampling", format!("{}: pixel {}: alpha of the result {:?}, the alpha plane resized alone as a one-channel image gives {}", ext.name(), i, ac[i * nc + nc - 1], got[i])).sig(sig("vii", ext)),
+                    );
+                }
+            }
+        }
         // (vi) composition: alpha-aware resizing is exactly multiply_alpha -> plain resize -> divide_alpha
         //      (same back-end, same operations in the same order, so bit-identical)
         {
